@@ -69,6 +69,8 @@ inductive Expr3 where
   | neg (t : Ty) (e : Expr3)
   | bin (op : BinOp) (t : Ty) (l r : Expr3)
   | cond (t : Ty) (c a b : Expr3)
+  /-- `(a, b)` (6.5.17): `a` is evaluated — it must have a value — and discarded; type and value of `b` -/
+  | comma (t : Ty) (a b : Expr3)
   deriving Repr, Inhabited
 
 /-- constants and variables as `Expr3` (so that the trees of 𝔽₁ can be written as before) -/
@@ -77,7 +79,7 @@ def Expr3.param (t : Ty) (i : Nat) : Expr3 := .pure (.param t i)
 
 def Expr3.ty : Expr3 → Ty
   | .pure e => e.ty
-  | .idx t _ _ _ _ | .call t _ _ | .cast t _ | .neg t _ | .bin _ t _ _ | .cond t _ _ _ => t
+  | .idx t _ _ _ _ | .call t _ _ | .cast t _ | .neg t _ | .bin _ t _ _ | .cond t _ _ _ | .comma t _ _ => t
 
 /-- `evalE` with array reads and calls; `callf fn vs` is what the call `fn(vs)` returns (`none`: undefined,
     or not within the fuel).  A callee cannot touch the objects of its caller and the arguments are passed by
@@ -97,6 +99,7 @@ def evalE3 (cs : Bool) (callf : String → List Int → Option Int) (s : Store) 
     | op => (evalE3 cs callf s l).bind fun a => (evalE3 cs callf s r).bind fun b => bin op (l.ty.intTy cs) a b
   | .cond _ c a b =>
     (evalE3 cs callf s c).bind fun v => if v ≠ 0 then evalE3 cs callf s a else evalE3 cs callf s b
+  | .comma _ a b => (evalE3 cs callf s a).bind fun _ => evalE3 cs callf s b
 
 inductive Stmt where
   | skip
@@ -474,6 +477,7 @@ def Expr3.noIdx : Expr3 → Bool
   | .cast _ e | .neg _ e => e.noIdx
   | .bin _ _ l r => l.noIdx && r.noIdx
   | .cond _ c a b => c.noIdx && a.noIdx && b.noIdx
+  | .comma _ a b => a.noIdx && b.noIdx
 
 /-- `Expr.wt` for expressions with array reads and calls: the array is a declared variable of the element
     type; index and arguments are well-typed (that the callee has these parameter types and this return
@@ -491,6 +495,7 @@ def Expr3.wt (vtys : List Ty) : Expr3 → Bool
      else if op.isCmp then l.ty == r.ty && l.ty.promoted && t == .int
      else l.ty == t && r.ty == t && t.promoted)
   | .cond t c a b => c.wt vtys && a.wt vtys && b.wt vtys && a.ty == t && b.ty == t && c.noIdx
+  | .comma t a b => a.wt vtys && b.wt vtys && b.ty == t
 
 /-- the second clause of `for`, if present -/
 def optWtC (vtys : List Ty) : Option Expr3 → Bool
@@ -572,6 +577,7 @@ def Expr3.callsOK (P : List Func) : Expr3 → Bool
   | .cast _ e | .neg _ e => e.callsOK P
   | .bin _ _ l r => l.callsOK P && r.callsOK P
   | .cond _ c a b => c.callsOK P && a.callsOK P && b.callsOK P
+  | .comma _ a b => a.callsOK P && b.callsOK P
 
 def Expr3.arrsOK (cnts : List Nat) : Expr3 → Bool
   | .pure _ | .call .. => true
@@ -579,6 +585,7 @@ def Expr3.arrsOK (cnts : List Nat) : Expr3 → Bool
   | .cast _ e | .neg _ e => e.arrsOK cnts
   | .bin _ _ l r => l.arrsOK cnts && r.arrsOK cnts
   | .cond _ c a b => c.arrsOK cnts && a.arrsOK cnts && b.arrsOK cnts
+  | .comma _ a b => a.arrsOK cnts && b.arrsOK cnts
 
 /-- every call names a function of the program, with arguments of the parameter types and the
     declared return type -/
